@@ -92,11 +92,13 @@ impl Sched {
                 opts.push(format!("T{i}"));
             }
         }
+        if opts.is_empty() {
+            // no thread left: extra actions alone are not performed (what is
+            // still in flight stays in flight)
+            return None;
+        }
         if let Some(x) = &self.extras {
             opts.extend(x.available().into_iter().map(|l| format!("X:{l}")));
-        }
-        if opts.is_empty() {
-            return None;
         }
         let pick = if let Some(r) = &g.replay {
             let want = r.get(g.replay_pos).cloned();
